@@ -100,7 +100,9 @@ def lake_build(targets):
 
 def axioms_audit(prop, thms):
     """#print axioms for every property theorem; returns {thm: [axioms]} or raises"""
-    src = f"import TrucModel.Props.{prop}\nopen Truc\n" + "".join(f"#print axioms {t}\n" for t in thms)
+    ptxt = open(os.path.join(LEAN, "TrucModel", "Props", f"{prop}.lean")).read()
+    nss = sorted(set(re.findall(r"^namespace\s+(\S+)", ptxt, flags=re.M)) | {"Truc"})
+    src = f"import TrucModel.Props.{prop}\n" + "".join(f"open {n}\n" for n in nss) + "".join(f"#print axioms {t}\n" for t in thms)
     path = os.path.join(WORK, f"axioms_{prop}.lean")
     open(path, "w").write(src)
     rc, out, err = sh(["lake", "env", "lean", path], cwd=LEAN, timeout=1200)
